@@ -29,7 +29,9 @@ def generate(ctx):
              # component names other than the defaults, and keyword arguments routed to the neurons by name
              "names": (i // 3) % 4 in (1, 2), "nkw": (i // 3) % 4 in (1, 3),
              # keyword arguments for the connections, routed by name (which connections get some: by bit)
-             "ckw": rng.choice([0, 0, 1, 2, 3, 5, 6, 7])}
+             "ckw": rng.choice([0, 0, 1, 2, 3, 5, 6, 7]),
+             # connections carry updaters with pending (accumulated, partly inspected, partly applied) updates when cleared
+             "updaters": rng.random() < 0.5}
         if kind == "serial":
             d["conn"] = rng.choice(fac.CONNECTIONS)
             d["transform"] = rng.choice([None, "double", "offset_kw"])
@@ -379,9 +381,21 @@ def run_case(ctx, desc):
         rdesc = {**desc, "clear_at": kpos}
         pA = _Parts(desc)
         A = _layer(desc, pA)
+        ug = torch.Generator().manual_seed(desc["seed"] + 77 + kpos)
         try:
-            for x in xs[:kpos]:
+            if desc.get("updaters"):
+                for c in pA.conns.values():
+                    c.updater = c.defaultupdater()
+            for t, x in enumerate(xs[:kpos]):
                 _step_layer(desc, A, x)
+                if desc.get("updaters"):
+                    for c in pA.conns.values():
+                        w = c.weight
+                        c.updater.weight = (torch.rand(w.shape, generator=ug).to(w.dtype) * 0.01, torch.rand(w.shape, generator=ug).to(w.dtype) * 0.01)
+                        if (t + kpos) % 2 == 0:
+                            _ = c.updater.weight.pos, c.updater.weight.neg       # a logger looking at the pending parts
+                    if t % 3 == 2:
+                        A.update()
         except Exception as e:  # noqa: BLE001
             return ctx.violation(ctx.exc_signature(e, f"forward.{tag}"), f"{type(e).__name__}: {str(e)[:160]}", rdesc)
         before = _params(pA)
@@ -395,6 +409,24 @@ def run_case(ctx, desc):
         for k in before:
             if not _same(before[k], after[k]):
                 return ctx.violation(f"{kind}.clear.changed_learned_state", f"clear() changed {k}", rdesc)
+        if desc.get("updaters"):
+            # a freshly built layer has nothing pending: neither does a cleared one, and applying "nothing" changes nothing
+            ctx.count("clears_with_pending_updates_checked")
+            for cn, c in pA.conns.items():
+                for nm in c.updater.names:
+                    acc = getattr(c.updater, nm)
+                    if acc.pos is not None or acc.neg is not None:
+                        return ctx.violation(f"{kind}.clear.pending_update_survives",
+                                             f"after clear() the updater of connection '{cn}' still reports a pending {nm} update "
+                                             f"(pos {'set' if acc.pos is not None else 'None'}, neg {'set' if acc.neg is not None else 'None'})", rdesc)
+            try:
+                A.update()
+            except Exception as e:  # noqa: BLE001
+                return ctx.violation(ctx.exc_signature(e, f"update_after_clear.{kind}"), f"{type(e).__name__}: {str(e)[:160]}", rdesc)
+            again = _params(pA)
+            for k in before:
+                if not _same(before[k], again[k]):
+                    return ctx.violation(f"{kind}.clear.update_after_clear_changes_parameters", f"update() right after clear() changed {k}", rdesc)
         # fresh copy carrying the learned parameters / adaptations
         pF = _Parts({**desc, "prefire_neurons": False})   # freshly built: components without a past
         for k in pA.conns:
